@@ -18,7 +18,7 @@ import (
 // C19 — ExpressionDump and Selector.String render the tree faithfully.
 
 const c19Rule = "parser-produced trees (from rendered own-ASTs, depth <= 6, JSON-Pointer and dotted selectors, quantifiers inside connectives, literals needing quoting) x " +
-	"indent strings (empty, blanks, tabs, multi-byte) x start levels 0-4; oracle: independent reference renderer written from the documented format, byte-equal output; " +
+	"indent strings (empty, blanks, tabs, multi-byte, and free strings over blanks, %, verbs, brackets, backslash, newline, NUL) x start levels 0-4; oracle: independent reference renderer written from the documented format, byte-equal output; " +
 	"dumping twice gives identical bytes; no panic; non-trivial = depth >= 3, a quantifier under a connective or a JSON-Pointer selector; distinct by (text, indent, level)"
 
 // indent strings: uniform, non-uniform, and pairs where one is a prefix of the other's
@@ -175,8 +175,12 @@ func TestC19_Dump(t *testing.T) {
 			rend.MaxParen = 0 // every parenthesis level multiplies the parse cost of what it encloses by 4
 		}
 		text, _ := rend.Render(e)
-		c := &c19Case{Text: []byte(text), TextQ: strconv.QuoteToASCII(text), Indent: c19Indents[rapid.IntRange(0, len(c19Indents)-1).Draw(t, "indent")],
-			Level: rapid.IntRange(0, 4).Draw(t, "level")}
+		indent := c19Indents[rapid.IntRange(0, len(c19Indents)-1).Draw(t, "indent")]
+		if rapid.IntRange(0, 2).Draw(t, "freeIndent") == 0 {
+			// the indent is the caller's text, written as it is: any characters, incl. those a formatter or a writer could interpret
+			indent = rapid.StringOfN(rapid.RuneFrom([]rune(" \t|.%sdvq[1]!#+-\\\n\r→{}()\x00")), 0, 5, -1).Draw(t, "indentText")
+		}
+		c := &c19Case{Text: []byte(text), TextQ: strconv.QuoteToASCII(text), Indent: indent, Level: rapid.IntRange(0, 4).Draw(t, "level")}
 		c19Check(t, c)
 		quantUnder := false
 		bx.Walk(e, func(x bx.Expr) {
@@ -197,6 +201,6 @@ func TestC19_Dump(t *testing.T) {
 		d := bx.Depth(e)
 		r.Case(text+"\x00"+c.Indent+strconv.Itoa(c.Level), d >= 3 || quantUnder || rend.PointerSels > 0,
 			map[string]string{"text": c.TextQ, "indent": strconv.Quote(c.Indent), "level": strconv.Itoa(c.Level)},
-			fmt.Sprintf("depth:%d", d), fmt.Sprintf("quantifier-under-connective:%v", quantUnder), fmt.Sprintf("pointer-selector:%v", rend.PointerSels > 0))
+			fmt.Sprintf("depth:%d", d), fmt.Sprintf("indent-has-percent:%v", strings.Contains(c.Indent, "%")), fmt.Sprintf("quantifier-under-connective:%v", quantUnder), fmt.Sprintf("pointer-selector:%v", rend.PointerSels > 0))
 	})
 }
